@@ -335,6 +335,31 @@ class ExprMixin:
 
     def _comp(self, n, elt, st, frame, out):
         saved = st.env
+        if len(n.generators) == 1:
+            g = n.generators[0]
+            it, st0 = self.eval(g.iter, st, frame, out)
+            consts = self.const_elements(it, st0)
+            if consts is not None:
+                # unrolled over a small constant collection: element-wise result
+                parts = []
+                cur = st0
+                for c in consts:
+                    cur = self.assign(g.target, V(C(c)), cur, frame, out)
+                    keep = True
+                    for cnd in g.ifs:
+                        f, cur = self.cond(cnd, cur, frame, out)
+                        if self.decide(f, cur) is False:
+                            keep = False
+                    if keep:
+                        v, cur = self.eval(elt, cur, frame, out)
+                        parts.append(v)
+                cur = cur.set(env=saved)
+                if isinstance(n, ast.ListComp):
+                    return V(("tuple", tuple(parts))), cur
+                u = frozenset()
+                for p_ in parts:
+                    u |= p_
+                return V(("listof", u)), cur
         for g in n.generators:
             it, st = self.eval(g.iter, st, frame, out)
             el, st = self.elements(it, st, frame, n)
@@ -346,6 +371,27 @@ class ExprMixin:
         return V(("listof", v)), st
 
     def ex_DictComp(self, n, st, frame, out):
+        saved = st.env
+        if len(n.generators) == 1:
+            g = n.generators[0]
+            it, st0 = self.eval(g.iter, st, frame, out)
+            consts = self.const_elements(it, st0)
+            if consts is not None:
+                items = []
+                cur = st0
+                for c in consts:
+                    cur = self.assign(g.target, V(C(c)), cur, frame, out)
+                    keep = True
+                    for cnd in g.ifs:
+                        f, cur = self.cond(cnd, cur, frame, out)
+                        if self.decide(f, cur) is False:
+                            keep = False
+                    if keep:
+                        kv, cur = self.eval(n.key, cur, frame, out)
+                        vv, cur = self.eval(n.value, cur, frame, out)
+                        for kt in kv:
+                            items.append((kt, vv))
+                return V(("dictlit", tuple(items))), cur.set(env=saved)
         return V(("unknown", n.lineno)), st
 
     # ------------------------------------------------------------------
@@ -479,6 +525,13 @@ class ExprMixin:
             neg = isinstance(op, ast.NotIn)
             # constant membership in a literal collection
             f = ("cmp", "in", l, r)
+            if len(r) == 1 and l and all(is_const(t) for t in l):
+                cs = self.const_elements(r, st)
+                if cs is not None:
+                    outs = {(a[1] in cs) for a in l}
+                    if len(outs) == 1:
+                        res = outs.pop()
+                        return F.LIT_T if (res != neg) else F.LIT_F
             if len(r) == 1:
                 rt = next(iter(r))
                 if tag(rt) == "list" and all(is_const(t) for t in l) and l:
@@ -503,6 +556,22 @@ class ExprMixin:
     def eval_args(self, n, st, frame, out):
         args = []
         for a in n.args:
+            if isinstance(a, ast.Starred):
+                v, st = self.eval(a.value, st, frame, out)
+                tups = [t for t in v if tag(t) == "tuple"]
+                if len(v) == 1 and tups:
+                    args.extend(tups[0][1])           # f(*args_tuple): positional expansion
+                    continue
+                if tups and len({len(t[1]) for t in tups}) == 1 and len(tups) == len(v):
+                    n_ = len(tups[0][1])
+                    for i in range(n_):
+                        u = frozenset()
+                        for t in tups:
+                            u |= t[1][i]
+                        args.append(u)
+                    continue
+                args.append(frozenset(("spread", t) for t in v))
+                continue
             v, st = self.eval(a, st, frame, out)
             args.append(v)
         kw = {}
